@@ -119,6 +119,7 @@ class Run(object):
         self.in_retry_g = set()
         self.backoff_of = {}
         self.when_of = {}
+        self.stamped = set()
         self.flushes = []
         self.nlabels = 0
         self.get_holds = {}
@@ -228,13 +229,17 @@ def run_case(case, model):
 
         def set_timestamp(id, ts):
             k = R.kid.get(id, 99)
-            R.when_of[gevent.getcurrent()] = ts
             h = R.ts_holds.get(k)
             if h is not None and h[1] == 'before':
                 R.ts_waiting.add(k)
                 h[0].wait()
                 R.ts_waiting.discard(k)
             r = orig_set_ts(id, ts)
+            # the first half of _retry_later is over: the due time it chose is in storage (the message is still active)
+            R.log('r%d:%d' % (k, R.rel(ts)))
+            R.stamped.add(gevent.getcurrent())
+            R.last_ts_set[k] = R.nlabels
+            R.flushed_since[k] = False
             if h is not None and h[1] == 'after':
                 R.ts_waiting.add(k)
                 h[0].wait()
@@ -342,12 +347,14 @@ def run_case(case, model):
                 return orig_retry(id, envelope, replies, delivered)
             finally:
                 R.in_retry_g.discard(gevent.getcurrent())
-                w = R.backoff_of.pop(gevent.getcurrent(), 'unset')
-                when = R.when_of.pop(gevent.getcurrent(), None)
-                # the label carries the due time the call chose (the time it read when it started + the backoff's answer)
-                R.log('r%d:%s' % (k, '-' if w is None or when is None else R.rel(when)))
-                R.last_ts_set[k] = R.nlabels
-                R.flushed_since[k] = False
+                R.backoff_of.pop(gevent.getcurrent(), None)
+                if gevent.getcurrent() in R.stamped:
+                    R.stamped.discard(gevent.getcurrent())
+                    R.log('Q%d' % k)            # the second half: released and put into the timetable
+                else:
+                    R.log('r%d:-' % k)          # the backoff function gave up
+                    R.last_ts_set[k] = R.nlabels
+                    R.flushed_since[k] = False
 
         def remove_stored(id):
             R.log('R%d' % R.kid.get(id, 99))
@@ -399,7 +406,7 @@ def run_case(case, model):
         def observe(action):
             settle()
             R.actions.append(action)
-            R.chunks.append((R.labels, None if R.ts_waiting else snapshot()))
+            R.chunks.append((R.labels, snapshot()))
             R.labels = []
             monitors(action)
 
@@ -634,7 +641,7 @@ def run_case(case, model):
                 break
         tags = ['pools=%s' % ('none' if not pools else 'bounded'), 'preload=%d' % case.get('preload', 0), 'scripted' if case['script'] is not None else 'random']
         alll = [l for ls, _ in R.chunks for l in ls]
-        for pfx, name in (('r', 'retry'), ('f', 'flush'), ('n', 'announce'), ('R', 'remove'), ('d', 'dequeue')):
+        for pfx, name in (('r', 'retry'), ('f', 'flush'), ('n', 'announce'), ('R', 'remove'), ('d', 'dequeue'), ('Q', 'requeue')):
             if any(l.startswith(pfx) for l in alll):
                 tags.append('label:' + name)
         if 0 in case['backoff']:
